@@ -109,7 +109,7 @@ pub fn check_case(case: &Case) -> CheckResult {
 
 pub fn run(tier: Tier, seed: u64) -> i32 {
     let stats = Stats::new(PROP, tier, seed);
-    let depth = tier.pick(3, 4);
+    let depth = tier.pick(3, 5);
     let mut types = chains(depth);
     types.extend(leaf_pair_maps());
     let per = 40;
